@@ -115,34 +115,26 @@ def run_shards(check_name, shards, tier, seed, timeout, jobs=NPROC):
     scratch = tempfile.mkdtemp(prefix='mxverif-')
     env = worker_env(seed)
     try:
-        slices = [[] for _ in range(min(jobs, max(1, len(shards))))]
-        order = sorted(range(len(shards)), key=lambda i: -shards[i].get('cost', 1))
+        # batches (four per job, longest first) handed to a pool of `jobs` worker processes as they become free: the declared
+        # shard costs are estimates, so a static split leaves most workers idle while one finishes
+        # shards that observe the order of first use within a process ('fresh_process') get a process of their own
+        alone = [i for i in range(len(shards)) if shards[i].get('fresh_process')]
+        rest = [i for i in range(len(shards)) if not shards[i].get('fresh_process')]
+        slices = [[] for _ in range(min(jobs * 4, max(1, len(rest))))]
+        order = sorted(rest, key=lambda i: -shards[i].get('cost', 1))
         loads = [0] * len(slices)
         for i in order:
             j = loads.index(min(loads))
             slices[j].append(i)
             loads[j] += shards[i].get('cost', 1)
-        procs = []
-        for j, sl in enumerate(slices):
-            if not sl:
-                continue
-            inp = os.path.join(scratch, 'in%d.json' % j)
-            outp = os.path.join(scratch, 'out%d.jsonl' % j)
-            json.dump({'check': check_name, 'tier': tier, 'seed': seed,
-                       'shards': [[i, shards[i]] for i in sl]}, open(inp, 'w'))
-            p = subprocess.Popen([PY, '-m', 'mxverif.worker', inp, outp], env=env, cwd=VERIF,
-                                 stdout=subprocess.PIPE, stderr=subprocess.PIPE)
-            procs.append((p, sl, outp))
+        todo = [[i] for i in alone] + [sl for _, sl in sorted(zip(loads, slices), key=lambda x: -x[0]) if sl]
         results = {}
         deadline = time.time() + timeout
         errs = []
-        for p, sl, outp in procs:
-            try:
-                so, se = p.communicate(timeout=max(1, deadline - time.time()))
-            except subprocess.TimeoutExpired:
-                p.kill()
-                so, se = p.communicate()
-                errs.append('worker timed out')
+        running = []
+        nbatch = 0
+
+        def collect(p, outp, se):
             if p.returncode not in (0, None) and se:
                 errs.append(se.decode('utf-8', 'replace')[-2000:])
             if os.path.exists(outp):
@@ -152,6 +144,35 @@ def run_shards(check_name, shards, tier, seed, timeout, jobs=NPROC):
                     except ValueError:
                         continue
                     results[i] = r
+        while todo or running:
+            while todo and len(running) < jobs:
+                sl = todo.pop(0)
+                nbatch += 1
+                inp = os.path.join(scratch, 'in%d.json' % nbatch)
+                outp = os.path.join(scratch, 'out%d.jsonl' % nbatch)
+                errp = os.path.join(scratch, 'err%d.txt' % nbatch)
+                json.dump({'check': check_name, 'tier': tier, 'seed': seed,
+                           'shards': [[i, shards[i]] for i in sl]}, open(inp, 'w'))
+                p = subprocess.Popen([PY, '-m', 'mxverif.worker', inp, outp], env=env, cwd=VERIF,
+                                     stdout=subprocess.DEVNULL, stderr=open(errp, 'wb'))
+                running.append((p, outp, errp))
+            still = []
+            for p, outp, errp in running:
+                if p.poll() is None:
+                    if time.time() > deadline:
+                        p.kill()
+                        p.wait()
+                        errs.append('worker timed out')
+                        collect(p, outp, b'')
+                    else:
+                        still.append((p, outp, errp))
+                else:
+                    collect(p, outp, open(errp, 'rb').read())
+            running = still
+            if time.time() > deadline:
+                todo = []
+            if running:
+                time.sleep(0.05)
         lost = [i for i in range(len(shards)) if i not in results]
         return results, lost, errs
     finally:
